@@ -383,8 +383,20 @@ def rule_f(ctx, ix):
         raise AnalysisError('LinkManager._links vanished')
     f = m.fget
     rets = [unparse(r.value).replace(' ', '') for r in returns_of(f) if r.value is not None]
-    ctx.ob(R, f.construct, 'the link set is the union of the datasets\' internal links and the external links',
-           rets in (['data_links|external_links'], ['external_links|data_links']),
+    # the union of two local sets: one collected from the datasets' own links, the other from the external links
+    union_ok = False
+    for r in returns_of(f):
+        v = r.value
+        if isinstance(v, ast.BinOp) and isinstance(v.op, ast.BitOr) and isinstance(v.left, ast.Name) and isinstance(v.right, ast.Name):
+            srcs = []
+            for nm in (v.left.id, v.right.id):
+                txt = ' '.join(unparse(st) for st in ast.walk(f.node)
+                               if isinstance(st, (ast.Assign, ast.For, ast.Expr)) and any(isinstance(n, ast.Name) and n.id == nm for n in ast.walk(st)))
+                srcs.append(('data_collection' in txt and "'links'" in txt, '_external_links' in txt))
+            union_ok = (srcs[0][0] and srcs[1][1]) or (srcs[1][0] and srcs[0][1])
+        elif isinstance(v, ast.Call) and call_name(v) == 'union':
+            union_ok = True
+    ctx.ob(R, f.construct, 'the link set is the union of the datasets\' internal links and the external links', union_ok,
            detail='LinkManager._links returns %s' % rets, where=f.where)
     exp = False
     from .. import cond as _c
